@@ -33,7 +33,7 @@ OUTSIDE = ["the structural quantifier of the property text ('every syntactically
 ASSUMPTIONS = ["'compiler diagnostic' = ppci.common.CompilerError (the class every front-end error() helper raises)",
                "the template families and the literal instrumentation are those of props/C27.py and props/C26.py"]
 SHIMS_USED = ["isinstance", "int", "struct", "bool", "range"]
-JOB_TIMEOUT = {"quick": 170, "thorough": 1500}
+JOB_TIMEOUT = {"quick": 600, "thorough": 1700}
 TASKS_PER_CHILD = 4
 RULE = C27.RULE
 
